@@ -1425,6 +1425,9 @@ def assemble(template_path, canary=False, force_salvage=None):
             fl = FnLines(sub.lines)
             fl.fn = out.fns[-1]
             fl.fn["module"] = "::".join(m for m, _ in mod_stack)
+            if "vmodule" in node[1].opts:
+                # an `impl T { .. }` block placed in another module than T: Verus names its functions by T's module
+                fl.fn["module"] = "" if node[1].opts["vmodule"] == "root" else node[1].opts["vmodule"]
             bufs.append(("lines", fl))
         else:
             bufs.append(("lines", sub.lines))
